@@ -38,12 +38,54 @@ theorem bind (hR : PreOrd R) {x : VM α} {f : α → VM β} (hx : Keeps R x) (hf
   | err k m => exact h1
   | panic p => exact h1
 
+theorem bind_modify (hR : PreOrd R) {g : VmSt → VmSt} {f : Unit → VM β} (hg : ∀ s, R s (g s))
+    (hf : Keeps R (f ())) : Keeps R (VM.modify g >>= f) :=
+  bind hR (modify g hg) (fun _ => hf)
+
 theorem attempt {x : VM α} (hx : Keeps R x) : Keeps R (VM.attempt x) := fun s => hx s
 
 theorem ite {c : Prop} [Decidable c] {x y : VM α} (hx : Keeps R x) (hy : Keeps R y) :
     Keeps R (if c then x else y) := by split <;> assumption
 
 end Keeps
+
+/-- `modify g >>= f` where `g` visibly leaves the related part alone -/
+macro "keeps_modify_rfl " P:term : tactic =>
+  `(tactic| (refine Keeps.bind_modify $P ?_ ?_; · exact fun _ => rfl))
+
+/-- pointwise version: running `x` from this particular state `s` ends in a state related to `s`.
+Needed where a handler reads the state (`get`) and later writes something computed from it. -/
+def KeepsAt {α : Type} (R : VmSt → VmSt → Prop) (x : VM α) (s : VmSt) : Prop := R s (x s).2
+
+namespace KeepsAt
+variable {α β : Type} {R : VmSt → VmSt → Prop}
+
+theorem of_keeps {x : VM α} (h : Keeps R x) (s : VmSt) : KeepsAt R x s := h s
+
+theorem bind (hR : PreOrd R) {x : VM α} {f : α → VM β} {s : VmSt} (hx : KeepsAt R x s)
+    (hf : ∀ a s', x s = (.ok a, s') → KeepsAt R (f a) s') : KeepsAt R (x >>= f) s := by
+  unfold KeepsAt at *
+  simp only [VM.bind_apply]
+  rcases hr : x s with ⟨r, s'⟩
+  rw [hr] at hx
+  cases r with
+  | ok a => exact hR.trans _ _ _ hx (hf a s' hr)
+  | err k m => exact hx
+  | panic p => exact hx
+
+/-- `get` hands the continuation the very state it runs in -/
+theorem get_bind (hR : PreOrd R) {f : VmSt → VM β} {s : VmSt} (hf : KeepsAt R (f s) s) :
+    KeepsAt R (VM.get >>= f) s :=
+  bind hR (hR.refl s) (fun a s' h => by simp at h; obtain ⟨h1, h2⟩ := h; subst h1; subst h2; exact hf)
+
+theorem pure (hR : PreOrd R) (a : α) (s : VmSt) : KeepsAt R (Pure.pure a : VM α) s := hR.refl s
+theorem fail (hR : PreOrd R) (k : String) (m : Bytes) (s : VmSt) : KeepsAt R (VM.fail k m : VM α) s := hR.refl s
+theorem vpanic (hR : PreOrd R) (p : String) (s : VmSt) : KeepsAt R (VM.vpanic p : VM α) s := hR.refl s
+theorem modify (f : VmSt → VmSt) (s : VmSt) (h : R s (f s)) : KeepsAt R (VM.modify f) s := h
+
+end KeepsAt
+
+theorem Keeps.of_at {α} {R : VmSt → VmSt → Prop} {x : VM α} (h : ∀ s, KeepsAt R x s) : Keeps R x := h
 
 /-- the cache, the page and the position are untouched (flags, language, ghost logs may change) -/
 def SameCachePagePos (s s' : VmSt) : Prop :=
